@@ -223,7 +223,95 @@ func c06Oracle(toks []c06Tok, results []string) (bool, string, string) {
 	return true, "", ""
 }
 
+// ---- the fence DRIVER path (sql.Open with fence.FenceDriver): BeginTx does the fence step, the caller's
+// statements and Commit follow.  The record must move exactly as on the WithFence path, and a refused or failed
+// delivery must leave no transaction open (the fence transaction holds the lock on the branch's record).
+// The business effects are not compared: on this path BeginTx cannot tell its caller to skip them.
+var fenceDriverSeq int
+
+func runC06Driver(c *Ctx) {
+	phases := []byte{'P', 'C', 'R'}
+	var seqs [][]byte
+	var rec func(prefix []byte, depth int)
+	rec = func(prefix []byte, depth int) {
+		if len(prefix) > 0 {
+			seqs = append(seqs, append([]byte{}, prefix...))
+		}
+		if depth == 0 {
+			return
+		}
+		for _, p := range phases {
+			rec(append(prefix, p), depth-1)
+		}
+	}
+	depth := 3
+	if c.Tier == "thorough" {
+		depth = 5
+	}
+	rec(nil, depth)
+	for i, seq := range seqs {
+		cid := fmt.Sprintf("fd-%d", i)
+		if !c.Want(cid) {
+			continue
+		}
+		e := memdb.New("fd")
+		e.CreateFenceLogTable()
+		fenceDriverSeq++
+		name := fmt.Sprintf("verif-fence-%d", fenceDriverSeq)
+		sql.Register(name, &fence.FenceDriver{TargetDriver: e.Driver()})
+		db, err := sql.Open(name, "root:pw@tcp(127.0.0.1:3306)/fd")
+		if err != nil {
+			panic(err)
+		}
+		var results, toks []string
+		leak := ""
+		crash := safeCall(func() {
+			for k, ph := range seq {
+				ctx := tm.InitSeataContext(context.Background())
+				tm.SetBusinessActionContext(ctx, &tm.BusinessActionContext{Xid: "10.0.0.1:8091:77", BranchId: 1, ActionName: "action"})
+				switch ph {
+				case 'P':
+					tm.SetFencePhase(ctx, enum.FencePhasePrepare)
+				case 'C':
+					tm.SetFencePhase(ctx, enum.FencePhaseCommit)
+				default:
+					tm.SetFencePhase(ctx, enum.FencePhaseRollback)
+				}
+				res := "ok"
+				tx, err := db.BeginTx(ctx, nil)
+				if err == nil {
+					err = tx.Commit()
+				}
+				if err != nil {
+					res = "refused"
+				}
+				row := "-"
+				for _, r := range e.Dump("tcc_fence_log") {
+					row = map[string]string{"1": "tried", "2": "committed", "3": "rollbacked", "4": "suspended"}[fmt.Sprint(r[3])]
+				}
+				results = append(results, res+":"+row)
+				toks = append(toks, fmt.Sprintf("1%c", ph))
+				if open := e.OpenTxns(); (len(open) > 0 || db.Stats().InUse > 0) && leak == "" {
+					leak = fmt.Sprintf("after delivery %d (%c, %s): transactions %v still open, %d pooled connections in use", k, ph, res, open, db.Stats().InUse)
+				}
+			}
+		})
+		db.Close()
+		c.Out.Case(cid, "C06", "seq "+strings.Join(toks, " "), strings.Join(results, " "))
+		class := ""
+		if crash != "" {
+			class = "crash"
+		} else if leak != "" {
+			class = "fence_driver_left_a_transaction_open"
+		}
+		c.Out.Oracle(cid, class == "", class, leak+crash)
+		c.Out.Tag(cid, fmt.Sprintf("nontrivial=%d", b2i(len(seq) > 1)))
+		c.Out.Count("fence-driver")
+	}
+}
+
 func runC06(c *Ctx) {
+	defer runC06Driver(c)
 	rng := NewRng(c.Seed)
 	phases := []byte{'P', 'C', 'R'}
 	var seqs [][]c06Tok
